@@ -124,6 +124,14 @@ Definition write_many (c : logcfg) (ts : bytes) (lens : list N) (d : dir) : dir 
   let d1 := open_file c (roll_if_needed c ts d) in
   dappend (cur_name c) (total_bytes lens) d1.
 
+(* the same call when archiving FAILS (fs::rename returns an error: archive name longer than
+   NAME_MAX, directory not writable, file locked): roll_if_needed()? returns the error after
+   open_file, nothing is appended; while the file is below the limit no rename is attempted *)
+Definition write_many_rf (c : logcfg) (lens : list N) (d : dir) : dir :=
+  let d0 := open_file c d in
+  if lmax_size c <=? cur_size c d0 then d0
+  else dappend (cur_name c) (total_bytes lens) (open_file c d0).
+
 (* write(level, message): the line is the 34-byte header followed by the message *)
 Definition write_msg (c : logcfg) (ts : bytes) (len : N) (d : dir) : dir :=
   write_many c ts [Consts.log_header_len + len] d.
@@ -155,6 +163,7 @@ Definition write_all (maxc : N) (ts : bytes) (sz : N) (d : dir) : dir :=
 (* ---------------------------------------------------------------------------------------- *)
 Inductive op :=
 | OWrite (c : logcfg) (ts : bytes) (lens : list N)   (* write_many / write by logger c *)
+| OWriteRF (c : logcfg) (lens : list N)              (* the same in an environment where the rename fails *)
 | ODump (maxc : N) (ts : bytes) (sz : N).             (* write_all *)
 (* a restart is not an operation of the model: RollingLogger and write_all keep no state in
    memory, every call re-reads the directory *)
@@ -162,6 +171,7 @@ Inductive op :=
 Definition step (d : dir) (o : op) : dir :=
   match o with
   | OWrite c ts lens => write_many c ts lens d
+  | OWriteRF c lens => write_many_rf c lens d
   | ODump maxc ts sz => write_all maxc ts sz d
   end.
 
@@ -177,32 +187,57 @@ Fixpoint trace (d : dir) (ops : list op) : list dir :=
 (* ---------------------------------------------------------------------------------------- *)
 (* event_logger: the bounded queue and one iteration of the loop in start()                  *)
 (* ---------------------------------------------------------------------------------------- *)
-(* evdir: entries (name, number of events in the file, 0); evq: number of queued events *)
-Record evstate := { evdir : dir; evq : N }.
+(* evdir: entries (name, number of events in the file, 0); evq: number of queued events;
+   evphase: Running | StopRequested (stop() stored SHUT_DOWN, the loop has not seen it yet) |
+   Done (the loop closed the queue and left) *)
+Inductive phase := Running | StopRequested | Done.
+Record evstate := { evdir : dir; evq : N; evphase : phase }.
 
 Definition ev_ext : bytes := [46; 106; 115; 111; 110].   (* ".json" *)
 
-(* write_event: ConcurrentQueue::bounded(1000).push fails when full, the event is dropped *)
+(* write_event: ConcurrentQueue::bounded(1000).push fails when full or closed, the event is dropped *)
 Definition ev_push1 (s : evstate) : evstate :=
-  if evq s <? Consts.event_queue_bound then {| evdir := evdir s; evq := evq s + 1 |} else s.
+  match evphase s with
+  | Done => s
+  | _ => if evq s <? Consts.event_queue_bound
+         then {| evdir := evdir s; evq := evq s + 1; evphase := evphase s |} else s
+  end.
 
-(* one loop iteration after the sleep: nothing when the queue is empty; otherwise drain the
-   queue, and write "<unix nanos>.json" unless get_files(dir).len() >= max_event_file_count *)
-Definition ev_tick (cap : N) (ts : bytes) (s : evstate) : evstate :=
+(* the flush of one loop iteration: nothing when the queue is empty; otherwise drain the queue, and
+   write "<unix nanos>.json" unless get_files(dir).len() >= max_event_file_count *)
+Definition ev_flush (cap : N) (ts : bytes) (s : evstate) : evstate :=
   if evq s =? 0 then s
-  else if cap <=? N.of_nat (length (evdir s)) then {| evdir := evdir s; evq := 0 |}
-  else {| evdir := dput (ts ++ ev_ext) (evq s) 0 (evdir s); evq := 0 |}.
+  else if cap <=? N.of_nat (length (evdir s)) then {| evdir := evdir s; evq := 0; evphase := evphase s |}
+  else {| evdir := dput (ts ++ ev_ext) (evq s) 0 (evdir s); evq := 0; evphase := evphase s |}.
+
+(* one loop iteration after the sleep.  When SHUT_DOWN is set the queue is closed first, the
+   iteration then runs as usual (same cap check) and the loop leaves at its next is_closed() test *)
+Definition ev_tick (cap : N) (ts : bytes) (s : evstate) : evstate :=
+  match evphase s with
+  | Done => s
+  | Running => ev_flush cap ts s
+  | StopRequested =>
+      let s' := ev_flush cap ts s in {| evdir := evdir s'; evq := evq s'; evphase := Done |}
+  end.
+
+Definition ev_stop (s : evstate) : evstate :=
+  match evphase s with
+  | Running => {| evdir := evdir s; evq := evq s; evphase := StopRequested |}
+  | _ => s
+  end.
 
 Inductive evop :=
 | EPush (n : N)          (* n calls of write_event *)
 | ETick (ts : bytes)     (* one loop iteration *)
+| EStop                  (* event_logger::stop() *)
 | ERestart.              (* process restart: the queue is lost, the directory stays *)
 
 Definition ev_step (cap : N) (s : evstate) (o : evop) : evstate :=
   match o with
   | EPush n => N.iter n ev_push1 s
   | ETick ts => ev_tick cap ts s
-  | ERestart => {| evdir := evdir s; evq := 0 |}
+  | EStop => ev_stop s
+  | ERestart => {| evdir := evdir s; evq := 0; evphase := Running |}
   end.
 
 Fixpoint ev_trace (cap : N) (s : evstate) (ops : list evop) : list evstate :=
